@@ -521,6 +521,53 @@ def c_instances(ctx, case):
             break
 
 
+@check("C05.walkretry")
+def c_walkretry(ctx, case):
+    """A memoizing walk whose visit hook (the caller's code) RAISES at some node; the caller
+    catches it and walks again with the same object -- the same expression, and others that
+    share sub-expressions with it.  Every distinct node is still visited: what was not finished
+    is not remembered as done."""
+    exprs, k = case
+    order = []
+    probe = SeenWalk()
+    for e in exprs:
+        probe(e)
+    distinct = list(dict.fromkeys(probe.seen))
+    if not distinct:
+        return
+    target = distinct[k % len(distinct)]
+
+    class Boom(Exception):
+        pass
+
+    class W(SeenCachedWalk):
+        armed = True
+
+        def visit(self, expr, *a, **kw):
+            if self.armed and (type(expr), expr) == target:
+                raise Boom()
+            return super().visit(expr, *a, **kw)
+    m = W()
+    ctx.case(None)
+    ctx.count("walk_retries_after_a_raising_visit")
+    for e in exprs:
+        try:
+            m(e)
+        except Boom:
+            pass
+    m.armed = False
+    for e in exprs:
+        m(e)
+    got, want = set(m.seen), set(distinct)
+    # (ancestors of the faulting node are visited a second time on the retry: their first walk
+    #  was aborted -- only "every node is visited" is judged)
+    if got != want:
+        ctx.fail("C05.walkretry", case, "walk-after-failure:missing",
+                 f"CachedWalkMapper whose visit raised at {target[1]} (caught), then the same object "
+                 f"over {[str(e) for e in exprs]} again: never visited "
+                 f"{[str(x[1]) for x in want - got][:5]}")
+
+
 # {{{ optimizer
 
 OPTS = ["drop_args", "drop_kwargs", "inline_rec", "inline_cache", "inline_get_cache_key"]
@@ -646,6 +693,19 @@ def workload(ctx):
         for k, v in tr.handlers().items():
             ctx.count("handler:" + k, v)
         ctx.count("handler:CachedMapper.get_cache_key", tr.counts.get("CachedMapper.get_cache_key", 0))
+    for i in range(ctx.per_shard(ctx.pick(300, 6000))):
+        r2 = ctx.sub_rng("walkretry", i)
+        g2 = G.AnyGen(r2, hist=None, share_p=0.3, names="xyzab", exclude=("subst", "deriv", "subs"),
+                      leaf_extra=False, consts=(0, 1, -1, 2, 3))
+        es = [g2.gen(r2.randint(1, 3)) for _ in range(r2.randint(1, 3))]
+        es = [e for e in es if isinstance(e, p.Expression)]
+        if es:
+            es.append(p.Sum((es[0], 1)))
+            try:
+                hash(tuple(es))
+            except TypeError:
+                continue
+            ctx.run("C05.walkretry", (es, r2.randrange(50)))
     # optimizer: each admissible combination alone in a fresh process
     subjects = ["OptCachedRenamer", "OptCachedCounter", "OptCachedWalker", "OptArgRenamer",
                 "OptPlainRenamer", "OptArgPlain"]
@@ -686,5 +746,6 @@ def workload(ctx):
     ctx.floor("keys_counted", 2000)
     ctx.floor("optimized_classes", 100)
     ctx.floor("nested_rec_subject", 17)
+    ctx.floor("walk_retries_after_a_raising_visit", 200)
     ctx.floor("optimizer_histories", 20)
     ctx.floor("handler:CachedMapper.get_cache_key", 10000)
